@@ -219,19 +219,30 @@ def d3_epsilon(ctx, m):
         except (Unrecognised, KeyError) as e:
             ctx.unrec(rule, 'dirac.py:%s#expression' % fname, str(e))
             continue
-        # windows admitted by the guard
-        sets = []
-        for c in walk(f):
-            if isinstance(c, ast.Call) and call_name(c) == 'set' and c.args and isinstance(c.args[0], ast.Tuple) and all(isinstance(x, ast.Constant) for x in c.args[0].elts):
-                sets.append(frozenset(x.value for x in c.args[0].elts))
-        ok_w = set(sets) == {frozenset(range(n)), frozenset(range(1, n + 1))}
+        # windows admitted by the guard: the function prologue (local assignments + the raising if) is evaluated for every index
+        # tuple of the box [-1, n+1]^n; a tuple must be rejected exactly when it lies in neither {0..n-1}^n nor {1..n}^n
         rs = [s for s in statements(f) if isinstance(s, ast.Raise)]
-        gtxt = unparse(guards_of(m, rs[0], stop=f)[0][0]) if rs and guards_of(m, rs[0], stop=f) else ''
-        ok_g = bool(rs) and gtxt.startswith('not (') and gtxt.count('test_set <=') == 2 and ' or ' in gtxt
-        ts = [s for s in statements(f) if isinstance(s, ast.Assign) and unparse(s.targets[0]) == 'test_set']
-        ok_t = len(ts) == 1 and unparse(ts[0].value) == 'set((%s))' % ', '.join(p)
-        ctx.check(rule, 'dirac.py:%s#domain' % fname, ok_w and ok_g and ok_t, 'tuples outside the windows {0..%d} / {1..%d} are rejected' % (n - 1, n),
-                  'domain guard is `%s` with index sets %s' % (gtxt, [sorted(s) for s in sets]), m.loc(f))
+        pro = [s for s in f.body if not (isinstance(s, ast.Expr) and isinstance(s.value, ast.Constant)) and not isinstance(s, ast.Return)]
+        wrong = []
+        try:
+            code = compile(ast.Module(body=pro or [ast.Pass()], type_ignores=[]), '<prologue>', 'exec')
+            for tup in itertools.product(range(-1, n + 2), repeat=n):
+                envv = dict(zip(p, tup))
+                rejected = False
+                try:
+                    exec(code, {'__builtins__': {'set': set, 'frozenset': frozenset, 'ValueError': ValueError, 'Exception': Exception, 'all': all, 'any': any, 'min': min, 'max': max, 'len': len, 'range': range,
+                                                 'sorted': sorted, 'tuple': tuple, 'list': list}}, envv)
+                except ValueError:
+                    rejected = True
+                inside = all(0 <= x <= n - 1 for x in tup) or all(1 <= x <= n for x in tup)
+                if rejected == inside:
+                    wrong.append(tup)
+        except Exception as ex_:
+            ctx.unrec(rule, 'dirac.py:%s#domain' % fname, 'cannot evaluate the domain guard: %r' % ex_)
+            wrong = None
+        if wrong is not None:
+            ctx.check(rule, 'dirac.py:%s#domain' % fname, bool(rs) and not wrong, 'tuples outside the windows {0..%d} / {1..%d} are rejected, tuples inside are accepted (%d tuples evaluated)' % (n - 1, n, (n + 3) ** n),
+                      'the domain guard decides wrongly for the index tuples %s' % wrong[:5], m.loc(f))
         # exhaustive evaluation on both windows
         bad = None
         count = 0
